@@ -170,12 +170,15 @@ def run(chk):
     # ---- hierarchical_clustering = SciPy linkage / fcluster of the metric's pdist vector
     from pyrepseq.metric import Levenshtein
     hops, hchecks = [], []
-    for _ in range(25 if not thorough else 250):
+    for it_h in range(25 if not thorough else 250):
         xs = gen.sub_collection(rng, pool, rng.randint(2, 12))
+        if it_h < 4:
+            # exactly two observations (one pairwise distance, one merge): near and far pairs
+            xs = [["AC", "AD"], ["A", "CDC"], ["ACD", "ACD"], ["", "DDD"]][it_h]
         method = rng.choice(["single", "average", "complete"])
         t = rng.choice([1, 2, 3])
         lk = dict(method=method, optimal_ordering=rng.random() < 0.5)
-        ck = dict(t=t, criterion="distance")
+        ck = dict(t=t, criterion="distance") if not (it_h < 4 and it_h % 2) else dict(t=2, criterion="maxclust")
         cont = rng.choice(["list", "series"])
         obj = xs if cont == "list" else pd.Series(xs, index=rng.sample(range(100), len(xs)))
         real = core.call_real(lambda: ds.hierarchical_clustering(obj, linkage_kws=lk, cluster_kws=ck))
@@ -197,7 +200,7 @@ def run(chk):
         if not np.allclose(link, wl) or list(clus) != list(wc) or len(clus) != len(xs):
             chk.violation("C15|hierarchical_clustering|differs", "hierarchical_clustering is not SciPy's linkage / fcluster of the metric's "
                           "pairwise distances, one label per input in input order", {**meta, "real": [int(c) for c in clus], "want": [int(c) for c in wc]})
-        if method == "single":
+        if method == "single" and ck.get("criterion") == "distance":
             trip = nn.symdel(xs, max_edits=t)
             from scipy.spatial.distance import squareform as _sq
             dm = [[str(int(v)) for v in row] for row in _sq(vec).tolist()]
